@@ -354,7 +354,7 @@ func (c *fctx) typeFacts(term string, t types.Type, alloc string, depth int) []s
 		}
 		if u.Info()&types.IsString != 0 {
 			// a Go string's length is an int (spec-level byte sequences are unbounded)
-			out = append(out, fmt.Sprintf("(<= (len %s) 9223372036854775807)", term))
+			out = append(out, fmt.Sprintf("(<= (len %s) 4611686018427387904)", term))
 		}
 	case *types.Pointer, *types.Map, *types.Chan:
 		out = append(out, fmt.Sprintf("(>= %s 0)", term))
@@ -364,7 +364,7 @@ func (c *fctx) typeFacts(term string, t types.Type, alloc string, depth int) []s
 	case *types.Slice:
 		out = append(out,
 			fmt.Sprintf("(>= (sbase %s) 0)", term), fmt.Sprintf("(>= (soff %s) 0)", term),
-			fmt.Sprintf("(>= (slen %s) 0)", term), fmt.Sprintf("(<= (slen %s) (scap %s))", term, term), fmt.Sprintf("(<= (scap %s) 9223372036854775807)", term),
+			fmt.Sprintf("(>= (slen %s) 0)", term), fmt.Sprintf("(<= (slen %s) (scap %s))", term, term), fmt.Sprintf("(<= (scap %s) 4611686018427387904)", term),
 			fmt.Sprintf("(=> (= (sbase %s) 0) (= %s nilSlice))", term, term))
 		if alloc != "" {
 			out = append(out, fmt.Sprintf("(or (= (sbase %s) 0) (select %s (sbase %s)))", term, alloc, term))
